@@ -98,6 +98,14 @@ def concretise(cmd, rnd, extras=True, chain=None):
         elif med == 'three-circular-radials':
             argv += ['--medium=13,0.005,0,25', '--medium=5,0.001,-1.5,60', '--medium=80,4,-2',
                      '--boundary=circular', '--radial-count=12', '--radial-radius=0.002']
+    if extras and rnd.random() < 0.35:
+        # insulation: for all objects, or for one object with an explicit tag
+        tagged = [o['tag'] for o in cmd['objs'] if o['tag']]
+        if tagged and rnd.random() < 0.6:
+            argv.append('--insulation-load=0.002,2.5,%d' % rnd.choice(tagged))
+        else:
+            argv.append('--insulation-load=0.002,2.5')
+        info['insulation'] = True
     return argv, info
 
 
